@@ -8,6 +8,14 @@
  *   mix fam=mixgev fn=<...> x=<bits> q=<list> mu=<list> l=<list> al=<list>   -> ok <bits>
  *   mixsample fam=<hxp|mixgev> seed=<n> k=<draws> (same parameters)          -> ok <bits>,...
  *   vec fn=<DMax|DMin|DLogSum> v=<list>                                       -> ok <bits>   (esl_vec_D*, n = length >= 1)
+ *   sampleof fn=<esl_*_Sample> u=<bits> a=<params>   -> ok <bits>: the sampler run on a generator whose ONE primitive draw
+ *        (esl_rnd_UniformPositive / esl_rnd_Gamma / esl_rnd_Gaussian, intercepted with ld --wrap) is forced to return u
+ *   mixsampleof fam=<hxp|mixgev> k=<n> u=<bits> (mixture parameters) -> ok <bits>: esl_rnd_DChoose forced to k, the deviate to u
+ *   gamsample t=<list> a=<mu,lambda,tau>             -> ok <bits>: esl_gam_Sample on the forced stream t of Gamma variates
+ *        (`hang` if the stream runs out: every variate gave mu + t/lambda == mu)
+ *   bracketlim mu=<bits> q=<bits>  -> ok <k>,<x2>,<absorb>,<r>: the tripling sequence x2 = x2 + 2.*(x2-x1) of esl_hxp_invcdf's
+ *        bracketing loop from x1 = mu, x2 = mu + 1. leaves `< eslINFINITY` after k+1 passes at x2; absorb = (x2 <= (x1+x2)/2.);
+ *        r = esl_hxp_invcdf(1.0, {mu, K=1, q, lambda=1}) (q < 1: p above every cdf value; hung before 55bbf88)
  */
 #include "hcommon.h"
 #include <signal.h>
@@ -25,6 +33,20 @@
 #include "esl_hyperexp.h"
 #include "esl_mixgev.h"
 #include "esl_vectorops.h"
+
+/* ---- forced primitive draws: `gcc -Wl,--wrap=<sym>` routes the library's calls here; without a forced value the real
+ *      function runs (so `sample` / `mixsample` still use the real generator) ---- */
+static int     forced_on;            /* 0: pass through */
+static double  forced_u[64]; static int forced_n, forced_i, forced_k, forced_exhausted;
+static double forced_next(void) { if (forced_i < forced_n) return forced_u[forced_i++]; forced_exhausted = 1; return 1.0; }
+extern double __real_esl_rnd_UniformPositive(ESL_RANDOMNESS *r);
+extern double __real_esl_rnd_Gamma(ESL_RANDOMNESS *r, double a);
+extern double __real_esl_rnd_Gaussian(ESL_RANDOMNESS *r, double mean, double stddev);
+extern int    __real_esl_rnd_DChoose(ESL_RANDOMNESS *r, const double *p, int N);
+double __wrap_esl_rnd_UniformPositive(ESL_RANDOMNESS *r) { return forced_on ? forced_next() : __real_esl_rnd_UniformPositive(r); }
+double __wrap_esl_rnd_Gamma(ESL_RANDOMNESS *r, double a) { return forced_on ? forced_next() : __real_esl_rnd_Gamma(r, a); }
+double __wrap_esl_rnd_Gaussian(ESL_RANDOMNESS *r, double mean, double stddev) { return forced_on ? forced_next() : __real_esl_rnd_Gaussian(r, mean, stddev); }
+int    __wrap_esl_rnd_DChoose(ESL_RANDOMNESS *r, const double *p, int N) { return forced_on ? forced_k : __real_esl_rnd_DChoose(r, p, N); }
 
 typedef double (*f3_t)(double, double, double);
 typedef double (*f4_t)(double, double, double, double);
@@ -166,6 +188,27 @@ static void h_op_inner(void)
     free_mix();
     return;
   }
+  if (!strcmp(op, "mixsampleof")) {
+    const char *fam = h_arg("fam"); double r; int ishx; ESL_RANDOMNESS *R;
+    if (!fam || !build_mix(fam)) { h_out("bad-op"); return; }
+    ishx = (HX != NULL);
+    forced_k = (int) h_argi("k", 0);
+    if (forced_k < 0 || forced_k >= (ishx ? HX->K : MG->K)) { free_mix(); h_out("bad-op"); return; }
+    forced_u[0] = h_argbits("u"); forced_n = 1; forced_i = 0; forced_exhausted = 0;
+    R = esl_randomness_Create(1);
+    forced_on = 1; r = ishx ? esl_hxp_Sample(R, HX) : esl_mixgev_Sample(R, MG); forced_on = 0;
+    esl_randomness_Destroy(R); free_mix();
+    if (forced_exhausted || forced_i != 1) h_out("bad-draws"); else h_out("ok %s", h_dbits(r));
+    return;
+  }
+  if (!strcmp(op, "bracketlim")) {
+    double mu = h_argbits("mu"), q = h_argbits("q"), x1 = mu, x2 = mu + 1., r; int k = 0; ESL_HYPEREXP *hx;
+    for (;;) { x2 = x2 + 2.*(x2-x1); if (!(x2 < eslINFINITY) || k >= 5000) break; k++; }
+    hx = esl_hyperexp_Create(1); hx->mu = mu; hx->q[0] = q; hx->lambda[0] = 1.0;
+    HX = hx; r = esl_hxp_invcdf(1.0, hx); free_mix();
+    h_out("ok %s,%s,%s,%s", h_dbits((double) k), h_dbits(x2), h_dbits((x2 <= (x1 + x2) / 2.) ? 1.0 : 0.0), h_dbits(r));
+    return;
+  }
   if (!strcmp(op, "vec")) {
     double v[16], r; int nv = parse_bits_list(h_arg("v"), v, 16);
     if (!fn || nv < 1) { h_out("bad-op"); return; }
@@ -208,6 +251,25 @@ static void h_op_inner(void)
     else        { r = ((f4_t) ftab[jf].fp)(a[0], a[1], a[2], a[3]); r = ((f4_t) ftab[ig].fp)(r, a[1], a[2], a[3]); }
     if (h_exception_seen) h_out("exception %s", h_status(h_exception_seen));
     else                  h_out("ok %s", h_dbits(r));
+  } else if (!strcmp(op, "sampleof")) {
+    double r; ESL_RANDOMNESS *R;
+    for (i = 0; stab[i].name; i++) if (!strcmp(stab[i].name, fn)) break;
+    if (!stab[i].name || stab[i].arity != n || !strcmp(fn, "esl_gam_Sample")) { h_out("bad-op"); return; }
+    forced_u[0] = h_argbits("u"); forced_n = 1; forced_i = 0; forced_exhausted = 0;
+    R = esl_randomness_Create(1);
+    forced_on = 1;
+    r = (n == 2) ? ((s2_t) stab[i].fp)(R, a[0], a[1]) : ((s3_t) stab[i].fp)(R, a[0], a[1], a[2]);
+    forced_on = 0;
+    esl_randomness_Destroy(R);
+    if (forced_exhausted || forced_i != 1) h_out("bad-draws"); else h_out("ok %s", h_dbits(r));
+  } else if (!strcmp(op, "gamsample")) {
+    double r; ESL_RANDOMNESS *R;
+    if (n != 3) { h_out("bad-op"); return; }
+    forced_n = parse_bits_list(h_arg("t"), forced_u, 64); forced_i = 0; forced_exhausted = 0;
+    R = esl_randomness_Create(1);
+    forced_on = 1; r = esl_gam_Sample(R, a[0], a[1], a[2]); forced_on = 0;
+    esl_randomness_Destroy(R);
+    if (forced_exhausted) h_out("hang"); else h_out("ok %s", h_dbits(r));
   } else if (!strcmp(op, "sample")) {
     uint32_t seed = (uint32_t) h_argu("seed", 1); int k = (int) h_argi("k", 1), j;
     ESL_RANDOMNESS *R; char *buf, *p;
